@@ -637,3 +637,25 @@ Proof.
   destruct (atbound2 (atan2 (vz v) (sqrt (vx v * vx v + vy v * vy v)) * R2D) ((atan2 (vy v) (vx v) + sdss_node) * R2D)) as [d r].
   reflexivity.
 Qed.
+
+(* eq2xyz and xyz2eq, specialised by the translator to each (units, stomp) setting, are the model's *)
+Lemma eq2xyz_args_ok (deg stomp : bool) (ra dec : R) :
+  thetaphi2xyz_xyz_src (fst (eq2xyz_args_src deg stomp ra dec)) (snd (eq2xyz_args_src deg stomp ra dec))
+  = Some (eq2xyz_R deg stomp ra dec).
+Proof.
+  unfold eq2xyz_args_src, thetaphi2xyz_xyz_src, eq2xyz_R, ang_in.
+  destruct deg, stomp; simpl fst; simpl snd; rewrite ?Rminus_0_r; reflexivity.
+Qed.
+
+Lemma xyz2eq_post_ok (deg stomp : bool) (v : vec) :
+  xyz2eq_post_src (fun x lo hi => atbound atb_fuel x (lo, hi)) deg stomp (lon_of v) (lat_of v) = xyz2eq_R deg stomp v.
+Proof.
+  unfold xyz2eq_R. change xyz2eq_lat_atan2 with true. change xyz2eq_rad_wrap_2pi with true.
+  unfold xyz2eq_post_src, xyz2eq_R_gen, lat_by, xyz2eq_atbound.
+  destruct deg, stomp; rewrite ?Rplus_0_r; try reflexivity.
+  - destruct (Rlt_dec (lon_of v + sdss_node) (0 / 10)); destruct (Rlt_dec (lon_of v + sdss_node) 0); try lra; f_equal; lra.
+  - destruct (Rlt_dec (lon_of v) (0 / 10)); destruct (Rlt_dec (lon_of v) 0); try lra; f_equal; lra.
+Qed.
+
+Lemma sdss_range_err_is : sdss_range_err = EValue.
+Proof. reflexivity. Qed.
